@@ -69,6 +69,15 @@ def _cases(draw, tier):
     if layer == 'cond':
         return {'kind': 'wf', 'layer': 'cli', 'ast': draw(_EXPR_COND), 'sp': draw(st.sampled_from(['', ' ', ' '])),
                 'form': draw(st.integers(3, 4))}
+    if draw(st.integers(0, 59)) == 0:
+        # a lone literal in a spelling that only other languages have
+        return {'kind': 'tok', 'layer': 'cli', 'tokens': [draw(st.sampled_from(['0b101', '0o17', '1_000', '0x_ff', '0B11', '0O7', '1e3', '0x1p3']))],
+                'form': draw(st.integers(0, 2))}
+    if draw(st.integers(0, 39)) == 0:
+        # a non-whole quotient of two literals next to a name, as an origin (evaluated more than once by the tool)
+        ast = ['bin', draw(st.sampled_from(['*', '+'])), ['bin', '/', ['num', draw(st.sampled_from([7, 15, 29, 101])), 'dec'], ['num', 2, 'dec']],
+               ['bin', '/', ['lab', draw(st.sampled_from(['alpha', 'gamma_1']))], ['num', 2, 'dec']]]
+        return {'kind': 'wf', 'layer': 'cli', 'ast': ast, 'sp': ' ', 'form': 6}
     if draw(st.integers(0, 19)) == 0:
         # a quotient that is large and not whole, divided again: the real quotient, truncated only at the very end
         big = draw(st.integers(1 << 29, (1 << 50) - 1))
@@ -184,9 +193,20 @@ def _run_cli(text, form):
         lines.append(f'.8byte 0 + ({text})')
     elif form == 5:
         lines.append(f'ldv {text}')      # as the operand of an instruction
+    elif form == 7:
+        lines += [f'.org {text}', '.byte $5a']      # as an origin (the one directive that evaluates its expression repeatedly)
     else:
         lines += [f'v_res = {text}', '.8byte v_res']
     src = '\n'.join(lines) + '\n'
+    if form == 7:
+        # the byte after the origin is looked for in the whole 64 KiB image
+        res = runner.run_forked(['compile', '-c', 'isa.json', '-o', 'out.bin', '-e', '65535', 'p.asm'], {'isa.json': ISA_TEXT, 'p.asm': src})
+        img = res.outputs.get('out.bin', b'')
+        if res.klass == 'accepted' and img.count(b'\x5a') == 1 and len(img) == 65536:
+            return ('value', img.index(b'\x5a')), src, res
+        if res.klass == 'accepted':
+            return ('value', None), src, res
+        return (res.klass, res.exit_code), src, res
     res = runner.run_forked(['compile', '-c', 'isa.json', '-o', 'out.bin', 'p.asm'],
                             {'isa.json': ISA_TEXT, 'p.asm': src})
     if form == 5 and res.klass == 'accepted' and len(res.outputs.get('out.bin', b'')) == 9 and res.outputs['out.bin'][0] == 0xA5:
@@ -226,8 +246,13 @@ def execute(case, ctx):
         else:
             form = case['form']
             if form >= 3:
-                # as an instruction operand where the value fits its 64-bit field, else as a constant
-                form = 5 if -(1 << 63) <= want < (1 << 64) and text.strip() else 1
+                # as an origin where the value is an address, as an instruction operand where it fits the 64-bit field,
+                # else as a constant
+                if case['form'] == 6 and 0 <= want < 65000 and text.strip():
+                    form = 7
+                    classes.append('evaluated-as-origin')
+                else:
+                    form = 5 if -(1 << 63) <= want < (1 << 64) and text.strip() else 1
                 if form == 5:
                     classes.append('evaluated-as-instruction-operand')
             got, src, res = _run_cli(text, form)
